@@ -179,6 +179,8 @@ func (s *LookupPartitionStrategy) AddPartition(name string, partition *LookupPar
 	if ok {
 		return false
 	}
+	// compute the new partition's share of the current limit
+	partition.UpdateLimit(s.limit)
 	s.partitions[name] = partition
 	return true
 }
